@@ -19,6 +19,15 @@ func verifHome() string {
 	return "/verif"
 }
 
+// outHome is where evidence and replay files go: /verif, or VERIF_OUT for runs against scratch copies
+// (sensitivity runs must never overwrite the evidence of the real tree).
+func outHome() string {
+	if h := os.Getenv("VERIF_OUT"); h != "" {
+		return h
+	}
+	return verifHome()
+}
+
 func envInt(name string, def int) int {
 	if s := os.Getenv(name); s != "" {
 		if v, err := strconv.Atoi(s); err == nil {
